@@ -227,8 +227,9 @@ class PoolWakeState {
     if (mask == 0) {
       waiter.bump();
     } else {
-      int32_t numSleepers = detail::countSetBits(mask);
-      waiter.bumpAndWakeN(numSleepers, groupSize_);
+      // The kernel picks which waiters of the shared futex a wake releases: wake the whole group so
+      // that the ones with work in their rings are among them (see wakeRange).
+      waiter.bumpAndWakeAll();
     }
   }
 
